@@ -110,8 +110,8 @@ theorem textSax_anyText (e : Env) (nil k : Bool) (t : Option Str) :
 /-- an idle writer: nothing pending, no queued tail -/
 abbrev idle (out : List Sax) (b : Bool) : WState := ⟨out, none, [], b, none⟩
 
-theorem step_data_idle (m : NsMap) (isDt : Str → Bool) (out : List Sax) (t : Option Str) :
-    WState.step m isDt (idle out false) (Ev.data (textData t))
+theorem step_data_idle (m : NsMap) (isDt : Str → Bool) (out : List Sax) (b : Bool) (t : Option Str) :
+    WState.step m isDt (idle out b) (Ev.data (textData t))
       = .ok (idle (out ++ textSax t) true) := by
   cases t with
   | none => simp [textData, WState.step, encodeData, WState.flush, textSax]
@@ -132,6 +132,12 @@ theorem step_data_pending (m : NsMap) (isDt : Str → Bool) (out : List Sax) (q 
     · simpa [textData, WState.step, encodeData, WState.flush, textSax, hs] using hf
     · simpa [textData, WState.step, encodeData, WState.flush, textSax, hs] using hf
 
+theorem step_none_pending (m : NsMap) (isDt : Str → Bool) (out : List Sax) (q : QN)
+    (a : List (QN × Str)) (b : Bool) :
+    WState.step m isDt ⟨out, some q, a, b, none⟩ (Ev.data .none)
+      = .ok (idle (out ++ [Sax.open q a]) true) := by
+  simp [WState.step, encodeData, WState.flush]
+
 theorem foldlM_append_ok {α β} (f : β → α → Except Err β) (w w' : β) (l1 l2 : List α)
     (h : l1.foldlM f w = .ok w') : (l1 ++ l2).foldlM f w = l2.foldlM f w' := by
   simp [List.foldlM_append, h, bind, Except.bind]
@@ -140,15 +146,32 @@ theorem foldlM_cons_ok {α β} (f : β → α → Except Err β) (w w' : β) (x 
     (h : f w x = .ok w') : (x :: l).foldlM f w = l.foldlM f w' := by
   simp [List.foldlM_cons, h, bind, Except.bind]
 
+/-- the text of a generic element after its attributes: the start tag keeps every attribute,
+an `xsi:nil` included (the `DATA None` of `nilFlush` flushes it with `is_nil=True`) -/
+theorem text_pending (m : NsMap) (isDt : Str → Bool) (out : List Sax) (q : QN)
+    (a : List (QN × Str)) (b : Bool) (t : Option Str) (rest : List Ev) :
+    (nilFlush a ++ Ev.data (textData t) :: rest).foldlM (WState.step m isDt) ⟨out, some q, a, b, none⟩
+      = rest.foldlM (WState.step m isDt) (idle (out ++ [Sax.open q a] ++ textSax t) true) := by
+  by_cases h : a.any (·.1 = xsiNil) = true
+  · have h1 := step_none_pending m isDt out q a b
+    have h2 := step_data_idle m isDt (out ++ [Sax.open q a]) true t
+    simp only [nilFlush, h, if_true, List.cons_append, List.nil_append]
+    rw [foldlM_cons_ok _ _ _ _ _ h1, foldlM_cons_ok _ _ _ _ _ h2]
+  · have hn : ∀ kv ∈ a, kv.1 ≠ xsiNil := by
+      intro kv hkv hh; apply h; simp; exact ⟨kv.2, by rw [← hh]; exact hkv⟩
+    have h3 := step_data_pending m isDt out q a b t hn
+    have h' : a.any (·.1 = xsiNil) = false := Bool.eq_false_iff.mpr h
+    simp only [nilFlush, h', Bool.false_eq_true, if_false, List.nil_append]
+    rw [foldlM_cons_ok _ _ _ _ _ h3]
+
 theorem treeOK_node {isDt : Str → Bool} {q : QN} {a : List (QN × Str)} {n : NsMap} {t : Option Str}
     {c : List Tree} {tl : Option Str} (h : treeOK isDt (.node q a n t c tl) = true) :
     q.isEmpty = false ∧ keysDistinct a = true ∧ (∀ kv ∈ a, parseAnyAttribute kv.2 n = kv.2) ∧
-    (∀ kv ∈ a, kv.1 ≠ xsiNil) ∧ (∀ kv ∈ a, plainAttr isDt kv = true) ∧ treeOKList isDt c = true := by
+    (∀ kv ∈ a, plainAttr isDt kv = true) ∧ treeOKList isDt c = true := by
   simp [treeOK, attrOK] at h
   obtain ⟨⟨⟨h1, h2⟩, h3⟩, h4⟩ := h
-  refine ⟨by simpa using h1, h2, ?_, ?_, ?_, h4⟩
-  · intro kv hkv; exact (h3 kv.1 kv.2 hkv).1.1
-  · intro kv hkv; exact (h3 kv.1 kv.2 hkv).1.2
+  refine ⟨by simpa using h1, h2, ?_, ?_, h4⟩
+  · intro kv hkv; exact (h3 kv.1 kv.2 hkv).1
   · intro kv hkv
     have := (h3 kv.1 kv.2 hkv).2
     simp [plainAttr]
@@ -160,21 +183,20 @@ theorem write_tree (e : Env) (m : NsMap) (isDt : Str → Bool) (nil : Bool) :
       ∃ b', (treeEv e nil t).foldlM (WState.step m isDt) (idle out b)
         = .ok (idle (out ++ treeSax e t) b')
   | .node q a n tx c tl, hok, out, b => by
-    obtain ⟨hq, hd, hst, hnil, hpl, hc⟩ := treeOK_node hok
+    obtain ⟨hq, hd, hst, hpl, hc⟩ := treeOK_node hok
     have ha := parseAnyAttributes_ok a n hd hst
     obtain ⟨b1, ih⟩ := write_forest e m isDt nil c hc
       (out ++ [Sax.open q a] ++ textSax (anyText e nil (!c.isEmpty) tx)) true
     have h1 : WState.step m isDt (idle out b) (Ev.start q) = .ok ⟨out, some q, [], b, none⟩ := by
       simp [WState.step, WState.flush]
     have h2 := attrs_fold m isDt out q b none a [] hd hpl (by simp)
-    have h3 := step_data_pending m isDt out q a b (anyText e nil (!c.isEmpty) tx) hnil
     have h5 : ∀ o bb, WState.step m isDt (idle o bb) (Ev.end q) = .ok (idle (o ++ [Sax.close q]) false) := by
       intro o bb; simp [WState.step, WState.flush]
     simp only [treeEv, ha, List.append_assoc, List.cons_append, List.nil_append]
     rw [foldlM_cons_ok _ _ _ _ _ h1]
     rw [foldlM_append_ok _ _ _ _ _ h2]
     simp only [List.nil_append]
-    rw [foldlM_cons_ok _ _ _ _ _ h3]
+    rw [text_pending]
     rw [foldlM_append_ok _ _ _ _ _ ih]
     rw [foldlM_cons_ok _ _ _ _ _ (h5 _ _)]
     cases htl : normalizeContent e tl with
@@ -185,7 +207,7 @@ theorem write_tree (e : Env) (m : NsMap) (isDt : Str → Bool) (nil : Bool) :
     | some s =>
       have hs := normalizeContent_nonempty e tl s htl
       have h6 := step_data_idle m isDt
-        (out ++ [Sax.open q a] ++ textSax (anyText e nil (!c.isEmpty) tx) ++ forestSax e c ++ [Sax.close q]) (some s)
+        (out ++ [Sax.open q a] ++ textSax (anyText e nil (!c.isEmpty) tx) ++ forestSax e c ++ [Sax.close q]) false (some s)
       refine ⟨true, ?_⟩
       simp only [tailEv, hs, Bool.false_eq_true, if_false]
       simp only [textData] at h6
